@@ -177,7 +177,7 @@ def _tpl_text(s):
 def ts(t):
     k = t["t"]
     if k == "prim":
-        return t["p"]
+        return "(() => void)" if t["p"] == "function" else t["p"]
     if k == "lit":
         return _lit(t["v"])
     if k == "tpl":
